@@ -5,6 +5,7 @@ CONSTANTS
   SinGrid <- MC_SinQuick
   MaxDepth = 4
   Bug = "efactor"
+  MaxRetarget = 1
   Emit = FALSE
 INVARIANT TypeOK
 INVARIANT RouteAgreement
